@@ -286,9 +286,12 @@ func (e *vf06Env) single(run *verifrt.Run, c vf06Single) {
 	}
 	newLeaf := after[0]
 	newFrame := newLeaf & vfFrameMask
-	wantFlags := (uintptr(fl) &^ uintptr(FlagCopyOnWrite)) | uintptr(FlagRW) | uintptr(FlagPresent)
-	if newLeaf&^vfFrameMask != wantFlags {
-		report("flags-after-copy", fmt.Sprintf("entry flags after the copy are %#x, expected %#x (old flags minus copy-on-write plus writable)", newLeaf&^vfFrameMask, wantFlags))
+	// what the property fixes: the page is present and writable afterwards, and who may access it / whether it may be
+	// executed does not change; accessed/dirty/global/caching and the software bits are the implementation's business
+	rel := uintptr(FlagPresent) | uintptr(FlagRW) | uintptr(FlagUserAccessible) | uintptr(FlagNoExecute)
+	wantFlags := (uintptr(fl) | uintptr(FlagRW) | uintptr(FlagPresent)) & rel
+	if newLeaf&^vfFrameMask&rel != wantFlags {
+		report("flags-after-copy", fmt.Sprintf("entry flags after the copy are %#x, expected present+writable with the old user/no-execute bits (%#x)", newLeaf&^vfFrameMask, wantFlags))
 	}
 	if newFrame == oldFrame {
 		report("frame-not-replaced", "the page still maps the shared frame")
